@@ -656,6 +656,10 @@ class _InfoMixin(object):
         return (1024 * 1024, 4 * 1024 * 1024)
 
     def cpu_percent(self, interval=None):
+        if interval:
+            # (psutil samples twice, interval seconds apart: it sleeps)
+            import time as _t
+            _t.sleep(interval)
         self._probe()
         return 0.0
 
